@@ -11,8 +11,9 @@ protocol has no definition call after the first `start`.
 A call on a sub-machine (`curr_state_->sub_sm->start()/run()/stop()/isTerminated()`) goes
 through `SubOps`; `ops n` ties the knot by recursion on the nesting depth.
 
-This is the code with patches/C16-01 (stop() stops the active sub-machine first) and
-patches/C16-02 (`cb_level_` stays raised while start()/stop()/run() call into the sub-machine).
+This is the code with patches/C16-01 (stop() stops the active sub-machine first),
+patches/C16-02 (`cb_level_` stays raised while start()/stop()/run() call into the sub-machine) and
+patches/C16-03 (`if (next_state_id < 0)`: every negative handler answer falls through to the routes).
 The code without them is in Arena.lean (`Fix`), where the counterexamples are proved.
 
 Callbacks run `Script`s whose calls target the owning machine or one of its ancestors (`Ctx`:
@@ -58,6 +59,10 @@ def scriptCall (rt : Rt) (t : Option Nat) : Call → Kind
       match runReject rt with
       | some r => .call t (.run e) r rt.view rt.view
       | none => .unmodelled
+  -- a definition call on the own machine or an ancestor (all running): `newState/addRoute/
+  -- addEvent/setSubStateMachine` answer false at the `is_running_` check and change nothing.
+  -- (`setInitState/setStateChangedCallback` are never refused: arena model only, ArenaDef.lean.)
+  | .defn i => .call t (.defn i) false rt.view rt.view
 
 def scriptOp (self : Nat) (rt : Rt) (ctx : Ctx) : SOp → Kind
   | .obs t =>
@@ -178,7 +183,7 @@ def runOwn (ops : SubOps Ctx Sub) (ctx : Ctx) (m : M Sub) (c : StateId) (e : Eve
   let cs := m.stateOf c
   let rtA : Rt := { m.rt with cbLevel := m.rt.cbLevel + 1 }
   let h := handlerPhase cs m.mid rtA ctx e
-  if h.1 = -1 then
+  if h.1 < 0 then
     let sc := routeScan c m.mid rtA ctx e 0 cs.routes
     match sc.1 with
     | none => (m, false, h.2 ++ sc.2)
@@ -235,6 +240,7 @@ def applyCall (n : Nat) (m : Mach n) (c : Call) : Mach n × Bool × Trace :=
       let r := (subOps n).start [] s.1
       (r.1, r.2.1, s.2 ++ r.2.2)
   | .run e => (subOps n).run [] m e
+  | .defn _ => (m, false, [])      -- not a call of the tree model
 
 /-- the run-time record of the root -/
 def rootRt : (n : Nat) → Mach n → Rt
